@@ -198,26 +198,7 @@ func c26Run(raw json.RawMessage) (res Result, err error) {
 		} else {
 			res.Detail = "master process died: " + names[fault]
 		}
-		// finding class = mirror of the Coq guard: the schedule is outside the stable class because ...
-		hasFail, hasConn := in.Mode == "stress", strings.HasPrefix(in.Mode, "stress")
-		seenCommit := false
-		for _, op := range in.Ops {
-			if op.Op == "commit" {
-				seenCommit = true
-			}
-			if op.Op == "fail" {
-				hasFail = true
-			}
-			if op.Op == "connect" && seenCommit {
-				hasConn = true
-			}
-		}
-		switch {
-		case fault == 3 && hasFail:
-			res.Class = "disconnect-during-fanout"
-		case (fault == 1 || fault == 2) && (hasConn || hasFail):
-			res.Class = "map-write-during-fanout"
-		}
+		// a runtime fault of the master is outside every listed class since the fix of F22a/b: it is a VIOLATION
 		tags = append(tags, fmt.Sprintf("fault=%d", fault))
 		if strings.HasPrefix(in.Mode, "stress") {
 			// no label trace in stress runs
